@@ -204,6 +204,16 @@ try:
     if left or ctx.section is not None or ctx.subsection is not None or tuple(ctx.expand_stack) != ("Pb",):
         fail("Wtp.start_page#post#lists-emptied-and-path-reset", f"after start_page: {left}, path {ctx.expand_stack}",
              "stale-messages")
+    # start_section clears the subsection, also when the section title is the current one / None
+    for sec in ("S2", "S2", None, None):
+        ctx.start_subsection("Sub")
+        ctx.start_section(sec)
+        with quiet_stdout():
+            ctx.debug("after start_section", sortid="verif/3")
+        rec = ctx.to_return()["debugs"][-1]
+        if ctx.subsection is not None or rec.get("subsection") not in (None, "") or rec.get("section") != (sec or "") and rec.get("section") != sec:
+            fail("Wtp.start_section#post#subsection-cleared", f"start_section({sec!r}) after start_subsection('Sub'): record {rec}",
+                 "stale-subsection")
     ctx.start_section("S2")
     ctx.start_subsection("Sub2")
     ctx.start_page("Pc")
